@@ -4,6 +4,7 @@ import (
 	"container/list"
 	"crypto/sha256"
 	"encoding/binary"
+	"errors"
 	"fmt"
 	"maps"
 	"slices"
@@ -13,6 +14,8 @@ import (
 	"github.com/relab/hotstuff"
 	"github.com/relab/hotstuff/security/crypto"
 )
+
+var errNilSignature = errors.New("cache: cannot verify nil signature")
 
 type Cache struct {
 	impl        crypto.Base
@@ -94,6 +97,9 @@ func (cache *Cache) Sign(message []byte) (sig hotstuff.QuorumSignature, err erro
 
 // Verify verifies the given quorum signature against the message.
 func (cache *Cache) Verify(signature hotstuff.QuorumSignature, message []byte) error {
+	if signature == nil {
+		return errNilSignature
+	}
 	hash := sha256.Sum256(message)
 	key := cacheKey(keyKindMessage, hash, signature)
 
@@ -111,6 +117,9 @@ func (cache *Cache) Verify(signature hotstuff.QuorumSignature, message []byte) e
 
 // BatchVerify verifies the given quorum signature against the batch of messages.
 func (cache *Cache) BatchVerify(signature hotstuff.QuorumSignature, batch map[hotstuff.ID][]byte) error {
+	if signature == nil {
+		return errNilSignature
+	}
 	// sort the list of ids from the batch map
 	ids := slices.Sorted(maps.Keys(batch))
 	var hash hotstuff.Hash
